@@ -8,7 +8,7 @@ K2 LP-dump equality of the DAG encoders, K5 end-to-end oracle on get_solution() 
 import json, random
 import networkx as nx
 from fpv import gen, models, k2
-from fpv.common import qstr
+from fpv.common import qstr, frac
 
 THEOREMS = ["FP.Props.C01.pathcore_sound", "FP.Props.C01.augment_wf", "FP.Props.C01.dag_routes_valid",
             "FP.Props.C01.decodePaths_length", "FP.Props.C01.walkcore_sound", "FP.Props.C01.augment_wfc",
@@ -96,8 +96,15 @@ def solution_problems(inst, m, sol):
     dag = not models.is_cyc(cls)
     routes = sol[key]
     probs = []
+    allow_empty_routes = cls in models.HAS_K and bool(
+        inst.get("options", {}).get("allow_empty_paths") or inst.get("options", {}).get("allow_empty_walks")
+        or inst.get("given_weights") is not None)
     for r in routes:
         if len(r) == 0:
+            # an empty route starts and ends nowhere: admissible only where the model allows unused layers
+            if not allow_empty_routes:
+                probs.append((f"an empty {key[:-1]} is returned (with weights {sol.get('weights')}) although empty {key} are not allowed",
+                              "empty"))
             continue
         for p in models.route_problems(inst, r, dag):
             probs.append((f"{key[:-1]} {list(r)}: {p}", "routes"))
@@ -111,6 +118,9 @@ def solution_problems(inst, m, sol):
         probs.append((f"{len(sol['slacks'])} slacks for {len(routes)} {key}", "shape"))
     if cls in models.HAS_K:
         k = m.k
+        k_user = inst.get("k", k)         # with given weights the class works with k = len(superset) and caps at the user's k
+        if len([r for r in routes if len(r) > 0]) > k_user:
+            probs.append((f"{len([r for r in routes if len(r) > 0])} non-empty {key} returned by a model built with k={k_user}", "shape"))
         if len(routes) > k:
             probs.append((f"{len(routes)} {key} returned by a model with k={k}", "shape"))
         allow_empty = bool(inst.get("options", {}).get("allow_empty_paths") or inst.get("options", {}).get("allow_empty_walks")
@@ -120,9 +130,29 @@ def solution_problems(inst, m, sol):
     return probs
 
 
+def shared_prefix_instance(rng):
+    """s -> a carries w1 + w2 and splits: three distinct values, two paths (the guessed-weights route of MinFlowDecomp has
+    more candidate layers than the optimum needs)"""
+    w1, w2 = rng.sample([1, 2, 3, 5, 8], 2)
+    mid = rng.choice([[], ["m"]])
+    tail1 = ["a", "b"] + mid + ["t"]
+    edges = [["s", "a"]] + [list(e) for e in zip(tail1[:-1], tail1[1:])] + [["a", "t"]]
+    fl = {("s", "a"): w1 + w2, ("a", "t"): w2}
+    for e in zip(tail1[:-1], tail1[1:]):
+        fl[e] = w1
+    nodes = ["s", "a", "b"] + mid + ["t"]
+    rng.shuffle(nodes)
+    return {"cls": "MinFlowDecomp", "nodes": nodes, "edges": edges, "origin": "edge", "weight_type": rng.choice(["int", "float"]),
+            "constraints": [], "coverage": "1", "ignore": [], "starts": [], "ends": [],
+            "options": {"optimize_with_guessed_weights": True, "optimize_with_greedy": rng.random() < 0.5},
+            "flow": [[u, v, str(fl[(u, v)])] for u, v in edges]}
+
+
 def k5_case(ctx, inst, suite="K5.end_to_end"):
     fp = ctx.fp
     cls = inst["cls"]
+    if ctx.quick() and "solver_options" not in inst:
+        inst = dict(inst, solver_options={"time_limit": 20})      # only returned solutions are judged here
     try:
         m = models.build(fp, inst)
         solved = bool(m.solve())
@@ -159,6 +189,24 @@ def run(ctx):
                 ctx.rep.sample({"suite": "K5", "instance": inst, "routes": sol[models.route_key(cls)]})
         for it in range(max(2, per // 2)):          # node-weighted input (with additional starts/ends)
             k5_case(ctx, models.node_instance(rng, cls), suite="K5.node_mode")
+        # option / argument variants that route the answer through another code path: guessed / given weights
+        for it in range(ctx.n(14, 60) if cls == "MinFlowDecomp" else max(2, per // 2)):
+            inst = models.instance(rng, cls)
+            if cls in ("MinFlowDecomp", "MinFlowDecompCycles"):
+                inst["options"] = dict(inst.get("options", {}), optimize_with_guessed_weights=True)
+                if rng.random() < 0.5:
+                    inst["options"]["use_min_gen_set_lowerbound"] = True
+            elif cls in ("kFlowDecomp", "kLeastAbsErrors", "kMinPathError", "kFlowDecompCycles", "kLeastAbsErrorsCycles",
+                         "kMinPathErrorCycles") and inst.get("flow"):
+                vals = sorted({frac(x[2]) for x in inst["flow"] if frac(x[2]) > 0})
+                pool = vals + [frac(1), frac(2)]
+                inst["given_weights"] = [qstr(rng.choice(pool)) for _ in range(inst.get("k", 2) + rng.randint(0, 2))]
+            else:
+                continue
+            k5_case(ctx, inst, suite="K5.weights_variants")
+        if cls == "MinFlowDecomp":
+            for it in range(ctx.n(4, 20)):
+                k5_case(ctx, shared_prefix_instance(rng), suite="K5.weights_variants")
         if cls in ("kLeastAbsErrors", "kMinPathError", "kPathCover", "MinPathCover"):
             for it in range(ctx.n(8, 40)):          # routes that must end/start at a declared inner node
                 k5_case(ctx, models.node_drop_instance(rng, cls), suite="K5.node_mode_starts_ends")
